@@ -329,6 +329,8 @@ def run_check(prop, tier, seed, replay=None):
         # in the quick tier the search stops launching new streams after a time budget
         t_search = time.time()
         budget = 300 if tier == "quick" else 3600
+        if os.environ.get("VERIF_SEARCH_BUDGET"):      # (campaign runs of bin/mutants shorten the search)
+            budget = int(os.environ["VERIF_SEARCH_BUDGET"])
         ordered = sorted(spec["streams"], key=lambda f: 1 if getattr(f, "__name__", "").startswith("conc_") else 0)
         for k in range(1, 3):
             ctx2 = dict(ctx, mult=3, seed=seed + 1000 * k, search=True)
